@@ -640,12 +640,14 @@ def part_sim(params, tier, acc):
     acc.sample(dict(part="sim"))
 
 
-MANY_KEYS = {4: [0, 1, 2, 3], 6: [2, 3, 6, 9, 14, 15]}
+MANY_KEYS = {4: [0, 1, 2, 3], 6: [2, 3, 6, 9, 14, 15],
+             "6b": [3, 11, 6, 7, 2, 1]}
 
 
 def many_graph(n, pattern):
     """n nets from a, net i goes to b or c (bit i of pattern)."""
-    nets = [("a", ["c" if pattern & (1 << i) else "b"]) for i in range(n)]
+    nn = 6 if n == "6b" else n
+    nets = [("a", ["c" if pattern & (1 << i) else "b"]) for i in range(nn)]
     return dict(v={"a": 1, "b": 1, "c": 1}, nets=nets, keys=MANY_KEYS[n])
 
 
@@ -660,8 +662,8 @@ def part_many(params, tier, acc):
     for (w, h, mesh) in ((3, 1, False), (3, 1, True), (2, 2, False),
                          (3, 2, True)):
         m = M(w, h, [], sorted(wrap_links(w, h)) if mesh else [])
-        for n in (4, 6):
-            for pattern in range(2 ** n):
+        for n in (4, 6, "6b"):
+            for pattern in range(2 ** (6 if n == "6b" else n)):
                 i += 1
                 if i % 16 != k:
                     continue
